@@ -10,7 +10,7 @@ RULE = ('complete Cartesian enumeration of order x row_dims x col_dims x rank ve
         'x value family; per point all of: full, matricize, element at ALL index tuples, +, -, scalar*T, T*scalar, '
         '@/dot (operator.operator, operator.vector, scalar-returning), transpose (all core subsets, conjugate), conj, '
         'copy, norm(2), norm(1), residual_error (all three rank vectors), isoperator, zeros/ones/eye/unit(all '
-        'indices)/uniform, TT(array) round trip. A case is non-trivial if it has order 1, a size-1 mode, a rank > 1 '
+        'indices)/uniform, TT(array) round trip; the conversions and a sample of the operations again with the cores of the operand in Fortran order and as transposed views. A case is non-trivial if it has order 1, a size-1 mode, a rank > 1 '
         'or a complex operand; cases are distinct by construction (distinctness measured by hashing the case).')
 ASSUMPTIONS = ['numpy.einsum / dense NumPy expressions are the reference semantics',
                'values: families gauss, small-int (exact ties/zeros), non-negative (1-norm); entries are not enumerated',
@@ -215,6 +215,39 @@ def run_case(case, seed):
         if r.true(K('from_array', 'meta'), meta_problem(T) is None, meta_problem(T)):
             r.close(K('from_array', 'value'), dn(T), a, 1e-10)
             r.true(K('from_array', 'dims'), list(T.row_dims) == list(rows) and list(T.col_dims) == list(cols))
+    # the same operand in other memory layouts (Fortran-ordered cores; cores that are transposed views, as returned by
+    # transpose()/rank_transpose()): a TT denotes the contraction of its cores whatever their strides are
+    if fam == 'gauss':
+        for lay in ('F', 'V'):
+            if lay == 'F':
+                cores2 = [np.asfortranarray(c) for c in A.cores]
+            else:
+                cores2 = [np.transpose(np.ascontiguousarray(np.transpose(c, (0, 2, 1, 3))), (0, 2, 1, 3)) for c in A.cores]
+            A2 = TT(cores2)
+            kl = lambda op, kind: K(op + ':layout' + lay, kind)
+            with r.op(kl('full', 'call')):
+                r.close(kl('full', 'value'), A2.full(), a, TOL)
+            with r.op(kl('matricize', 'call')):
+                r.close(kl('matricize', 'value'), A2.matricize(), Am.reshape(M) if N == 1 else Am, TOL)
+            with r.op(kl('element', 'call')):
+                idx = tuple(int(x) - 1 for x in a.shape)
+                e = A2.element([int(i) for i in idx])
+                r.true(kl('element', 'value'), abs(e - a[idx]) <= TOL * max(1.0, abs(a[idx])), 'last element')
+            with r.op(kl('norm2', 'call')):
+                r.close(kl('norm2', 'value'), A2.norm(), np.linalg.norm(a.ravel()), 1e-9)
+            with r.op(kl('add', 'call')):
+                T = A2 + B
+                if meta_problem(T) is None:
+                    r.close(kl('add', 'value'), dn(T), a + b, TOL)
+            with r.op(kl('transpose', 'call')):
+                T = A2.transpose()
+                if meta_problem(T) is None:
+                    r.close(kl('transpose', 'value'), dn(T), np.transpose(a, list(range(d, 2 * d)) + list(range(d))), TOL)
+                    r.close(kl('transpose', 'full'), T.full(), np.transpose(a, list(range(d, 2 * d)) + list(range(d))), TOL)
+            with r.op(kl('copy', 'call')):
+                r.close(kl('copy', 'value'), dn(A2.copy()), a, 0)
+            with r.op(kl('mul', 'call')):
+                r.close(kl('mul', 'value'), dn(A2 * 2.0), 2.0 * a, TOL)
     # operands untouched by everything above
     r.true(K('operands', 'unchanged'), unchanged(A, sA) and unchanged(B, sB), 'A or B modified by a value-level op')
     return r
